@@ -35,6 +35,27 @@ type zzC06 struct {
 	nextVal    uint64
 	door       bool
 	lastCostFn int64
+	// ledger for the notification, accounting and counter clauses (C05, C02, C16) checked on the same histories
+	gets, hits  uint64
+	finals      []zzC06Final // every accepted value that was not overwritten in place
+	everDeleted [3]bool
+}
+
+// zzC06Final: an accepted value that left (or will leave) the cache as a whole entry: by Delete, eviction, expiry -
+// or that is still resident at the end. replaced = overwritten in place by a later Set (then it is never notified).
+type zzC06Final struct {
+	key, val uint64
+	deleted  bool
+	replaced bool
+}
+
+func (h *zzC06) get(k uint64) (uint64, bool) {
+	v, ok := h.s.Get(k)
+	h.gets++
+	if ok {
+		h.hits++
+	}
+	return v, ok
 }
 
 func zzC06New() *zzC06 {
@@ -95,7 +116,23 @@ func (h *zzC06) doSet(k int) {
 	_ = nFn
 	// effective cost: the cost function's answer when cost == 0. The harness learns it from a ghost:
 	// the next "costfn" value is symbolic, so pin it by observing what the store recorded.
+	prevEnt, prevPresent := s.shards[zzIndex(s, uint64(k))].hashmap[uint64(k)]
+	var prevVal uint64
+	if prevPresent {
+		prevVal = prevEnt.value
+	}
 	ok := s.Set(uint64(k), v, cost, time.Duration(ttl))
+	if ok {
+		if prevPresent {
+			// overwritten in place: the previous value is never reported
+			for i := range h.finals {
+				if h.finals[i].key == uint64(k) && h.finals[i].val == prevVal {
+					h.finals[i].replaced = true
+				}
+			}
+		}
+		h.finals = append(h.finals, zzC06Final{key: uint64(k), val: v})
+	}
 	shard := s.shards[zzIndex(s, uint64(k))]
 	ent, present := shard.hashmap[uint64(k)]
 	eff := cost
@@ -116,7 +153,7 @@ func (h *zzC06) doSet(k int) {
 		vfAssert("set-true-stored", present && ent.value == v)
 		// immediately readable (ttl >= 1 and no time passes)
 		s.timerwheel.clock.RefreshNowCache()
-		gv, hit := s.Get(uint64(k))
+		gv, hit := h.get(uint64(k))
 		vfAssert("set-true-immediately-readable", hit && gv == v)
 		dl := int64(0)
 		if withTTL {
@@ -160,7 +197,7 @@ func zzIndex(s *Store[uint64, uint64], k uint64) int {
 func (h *zzC06) doGet(k int) {
 	s := h.s
 	s.timerwheel.clock.RefreshNowCache() // fresh cached clock: staleness is C03's subject
-	v, hit := s.Get(uint64(k))
+	v, hit := h.get(uint64(k))
 	e := h.model[k]
 	if hit {
 		vfAssert("hit-only-live-key", e.live)
@@ -172,9 +209,18 @@ func (h *zzC06) doGet(k int) {
 }
 
 func (h *zzC06) doDelete(k int) {
+	_, wasPresent := h.s.shards[zzIndex(h.s, uint64(k))].hashmap[uint64(k)]
 	h.s.Delete(uint64(k))
+	h.everDeleted[k] = true
+	if wasPresent {
+		for i := range h.finals {
+			if h.finals[i].key == uint64(k) && !h.finals[i].replaced && !h.finals[i].deleted && h.finals[i].val == h.model[k].val {
+				h.finals[i].deleted = true
+			}
+		}
+	}
 	h.model[k] = zzC06Ent{}
-	_, hit := h.s.Get(uint64(k))
+	_, hit := h.get(uint64(k))
 	vfAssert("deleted-key-absent", !hit)
 }
 
@@ -216,6 +262,49 @@ func (h *zzC06) finish() {
 	var total int64
 	h.s.RangeEntry(func(e *Entry[uint64, uint64]) { total += e.weight.Load() })
 	vfAssert("resident-cost-within-max", total <= h.capv)
+	h.ledger()
+}
+
+// ledger: the clauses of C02 (accounting after drain), C05 (one notification per departed entry, true reason) and
+// C16 (counters, size views) on the history just executed.
+func (h *zzC06) ledger() {
+	s := h.s
+	s.Wait()
+	zzAccounted(s, "history")
+	zzOnWheel(s, "history")
+	zzViews(s, "history")
+	for _, f := range h.finals {
+		n := 0
+		var last zzC06Note
+		for _, x := range h.notes {
+			if x.key == f.key && x.val == f.val {
+				n++
+				last = x
+			}
+		}
+		e, present := s.shards[zzIndex(s, f.key)].hashmap[f.key]
+		resident := present && e.value == f.val
+		if f.replaced {
+			vfAssert("history:overwritten-value-never-notified", n == 0)
+			continue
+		}
+		vfAssert("history:resident-xor-notified-exactly-once", (resident && n == 0) || (!resident && n == 1))
+		if n == 1 {
+			vfAssert("history:removed-reason-iff-deleted", (last.reason == REMOVED) == f.deleted)
+		}
+	}
+	for _, x := range h.notes {
+		known := false
+		for _, f := range h.finals {
+			if f.key == x.key && f.val == x.val {
+				known = true
+			}
+		}
+		vfAssert("history:notification-names-an-accepted-value", known)
+	}
+	st := s.Stats()
+	vfAssert("history:hits-plus-misses-is-the-number-of-gets", st.Hits()+st.Misses() == h.gets)
+	vfAssert("history:hits-is-the-number-of-values-returned", st.Hits() == h.hits)
 }
 
 func ZZ_C06_History() {
